@@ -5,6 +5,9 @@ over solver-chosen page layouts (one condition per source layout) + kernels with
 Replay: the whole public path on real files - `db create` (messagebus), note_utils.move_note with a
 real template pattern map, walk_zorg_page on the results - judged by the same oracle.
 """
+import os as _os
+_os.environ["XH_NO_PATCH"] = "1"   # this process replays on the real code: never patch zorg here
+
 import os
 import re
 import shutil
